@@ -35,7 +35,7 @@ def entry_emit_check(ctx, res, rule):
               "the shared-prefix computation is not the common prefix of previous key and key (loop ok: %s, bound ok: %s, non_shared: %s)" % (okshare, okmin, nonshared),
               f.loc(f.body))
     ns = nonshared[0] if nonshared else "non_shared"
-    ev = APE.run(prog, cg, f, bound=1)
+    ev = APE.run(prog, cg, f, bound=APE.BOUND)
     n = 0
     for p in ev.paths:
         if p.end != "exit":
@@ -115,7 +115,7 @@ def entry_parse_check(ctx, res, rule):
     d = prog.need("decode_entry", BL)
     res.saw(d)
     pn = [p["name"] for p in d.params]    # p, limit, shared, non_shared, value_length
-    ev = APE.run(prog, cg, d, bound=1)
+    ev = APE.run(prog, cg, d, bound=APE.BOUND)
     seen_fast = seen_slow = False
     for p in ev.paths:
         if p.end != "exit" or p.ret() == ("c", 0):
@@ -157,7 +157,7 @@ def entry_parse_check(ctx, res, rule):
         raise BrokenAnalysis("decode_entry: fast/slow paths not both recognised")
     f = prog.need("parse_next_key", BL)
     res.saw(f)
-    ev = APE.run(prog, cg, f, bound=1)
+    ev = APE.run(prog, cg, f, bound=APE.BOUND)
     n = 0
     for p in ev.paths:
         if p.ret() != ("c", 1) or p.end != "exit":
@@ -209,7 +209,7 @@ def restart_width_check(ctx, res, rule):
     res.check(r64 == "(ubuf_bytes(b->buf)>#%d)" % U32, rule, site(fin, "restart64"), "64-bit restarts iff entries region > UINT32_MAX",
               "writer switches to 64-bit restart offsets on %s" % r64, fin.loc(fin.body))
     # emission widths per branch
-    ev = APE.run(prog, cg, fin, bound=1)
+    ev = APE.run(prog, cg, fin, bound=APE.BOUND)
     for p in ev.paths:
         large = None
         for (a, b), v in p.cons.items():
@@ -249,7 +249,7 @@ def restart_width_check(ctx, res, rule):
     want = ["(size-((#1+num_restarts(b))*#4))", "(size-(#4+(num_restarts(b)*#8)))"]
     res.check(st == want, rule, site(bi, "restart_offset"), "restart array start = size - (1+n)*4, or size - (4 + n*8) when large",
               "block_init computes the restart array start as %s" % st, bi.loc(bi.body))
-    ev = APE.run(prog, cg, grp, bound=1)
+    ev = APE.run(prog, cg, grp, bound=APE.BOUND)
     for p in ev.paths:
         if p.end != "exit":
             continue
